@@ -165,6 +165,25 @@ def _w1(ctx: Context) -> None:
         else:
             tmp_terms.append((n, pt, how))
             ck.holds("C20.W1", f"save_data writes to {show(pt, 80)} (not the target itself)", ctx.loc(f, n))
+    # the target is never removed or truncated by the save (unlink + rename is not atomic: a crash in between leaves no file)
+    for n in cfg.nodes:
+        for c in ctx.calls(n):
+            name = ctx.resolve_name(f, c.func) or ""
+            victim = None
+            if name in ("os.remove", "os.unlink", "os.truncate", "shutil.rmtree") and c.args:
+                victim = T.of(cfg, n, c.args[0])
+            elif isinstance(c.func, ast.Attribute) and c.func.attr in ("unlink", "rmdir", "touch", "write_text", "write_bytes") and name not in ("os.unlink",):
+                victim = T.of(cfg, n, c.func.value)
+            if victim is not None and is_target(victim):
+                ck.violated(
+                    "C20.W1",
+                    f"{ctx.fkey(f)}:target-removed",
+                    f"save_data removes/truncates the pairing file itself (`{n.text()[:70]}`) before the new content is in place: a crash right after it leaves "
+                    "no pairing file at all, and a missing file is loaded as 'no pairings'",
+                    ctx.loc(f, n),
+                    [f"{f.module.relpath}:{n.lineno}: {n.text()}", "  crash point: after this statement, before the move"],
+                    "save_data never removes the target",
+                )
     # the move over the target
     moves = []
     for n in cfg.nodes:
@@ -248,6 +267,16 @@ def _x1(ctx: Context) -> None:
                      ctx.prog, ctx.func("aiohomekit.hkjson.loads"), ast.parse("JSON_DECODE_EXCEPTIONS").body[0].value))
     ck.check("C20.X1", "ValueError" in decode, "hkjson.JSON_DECODE_EXCEPTIONS contains ValueError (covers JSONDecodeError, UnicodeDecodeError and the converted LarkError)",
              "aiohomekit.hkjson:JSON_DECODE_EXCEPTIONS", f"JSON_DECODE_EXCEPTIONS = {sorted(decode)} lacks ValueError", "aiohomekit/hkjson.py:1")
+    # reading the (text-mode) file can fail with UnicodeDecodeError - a truncation inside a multi-byte sequence: the read
+    # must sit in the same guarded region as the parse
+    reads = [n for n in cfg.nodes for c in ctx.calls(n) if isinstance(c.func, ast.Attribute) and c.func.attr in ("read", "readlines", "readline") and not c.args]
+    tries = [fr[1] for fr in ln.frames if fr[0] == "try" and fr[2] == "body"]
+    for rn in reads:
+        inside = any(fr[0] == "try" and fr[2] == "body" and fr[1] in tries for fr in rn.frames)
+        ck.check("C20.X1", inside, "the cache file is read inside the guarded region (a truncated multi-byte sequence raises UnicodeDecodeError, a ValueError)",
+                 f"{ctx.fkey(f)}:read-outside-try", "CharacteristicCacheFile.__init__ reads the cache file outside the try that tolerates corruption: a cache cut inside a multi-byte "
+                 "UTF-8 sequence (or containing invalid bytes) raises UnicodeDecodeError and fails start-up", ctx.loc(f, rn))
+    ck.require_min("C20.X1", "reads of the cache file", len(reads), 1)
     # every class the parse can raise goes to a handler that does not raise
     classes = {exc for (_d, l, exc) in ln.succ if l == "x"}
     uncaught = {exc for (d, l, exc) in ln.succ if l == "x" and cfg.nodes[d].kind != "handler"}
@@ -380,6 +409,25 @@ def _k1(ctx: Context) -> None:
     for n in walk_own(sv.node):
         if isinstance(n, ast.Assign) and isinstance(n.targets[0], ast.Attribute) and _u(n.targets[0].value) == "self":
             I["<set_value>"] = n.targets[0].attr
+    # fields whose falsy values are meaningful (0, 0.0, False, []) must be written under `is not None`, not under truthiness
+    ZERO_OK = {"minValue", "maxValue", "minStep", "handle", "valid-values", "broadcast_events", "disconnected_events"}
+    wcfg = ctx.cfg(wf.qualname)
+    for n in wcfg.nodes:
+        a = n.ast
+        if n.kind == "stmt" and isinstance(a, ast.Assign) and isinstance(a.targets[0], ast.Subscript):
+            kk = ctx.const(wf, a.targets[0].slice, None)
+            if kk in ZERO_OK and isinstance(a.value, ast.Attribute):
+                attr_t = ("attr", ("param", "self"), a.value.attr)
+                # edges that allow the write although the value is falsy-but-not-None: `is not None` tests (any outcome is fine)
+                truthy_gate = []
+                for m in wcfg.nodes:
+                    if m.kind == "test" and strip_sites(T.of(wcfg, m, m.exprs[0])) == attr_t:
+                        truthy_gate += wcfg.out_edges(m, ("T",))
+                # if removing the truthiness edges makes the write unreachable, the write depends on truthiness
+                dep = bool(truthy_gate) and wcfg.find_path(wcfg.entry.id, n.id, avoid_edges=truthy_gate) is None
+                ck.check("C20.K1", not dep, f"characteristic field {kk!r} is written whenever it is not None (0 / False / [] are kept)", f"{CHAR}:falsy-dropped:{kk}",
+                         f"to_accessory_and_service_list writes {kk!r} only when self.{a.value.attr} is truthy: a declared value of 0 / 0.0 / False is dropped and comes back as None after a restart",
+                         ctx.loc(wf, n))
     ck.stats["c20_char_writer_table"] = W
     ck.stats["c20_char_reader_table"] = R
     ck.stats["c20_char_init_table"] = I
